@@ -492,4 +492,59 @@ theorem flow_unregister : flow «bp.urcu_bp_unregister» B0 = some (some B0) := 
 theorem add_thread_keeps : Stmt.prims (keeps BR) «bp.add_thread» = true := by decide
 theorem remove_thread_keeps : Stmt.prims (keeps BR) «bp.remove_thread» = true := by decide
 
+/-! ## `cleanup_thread`, `expand_arena`: exact effects (the fields `BpArena` tracks)
+
+`BpArena.Chunk {cap, used, slots}` ↦ `chunk->capacity`, `chunk->used`, `readers[i].alloc` / `.tid`.  `cleanup_thread(chunk, r)` =
+`BpArena.clear`: `cds_list_del(&r->node)` (the registry erase), `r->ctr = 0`, `r->tid = 0`, `r->alloc = 0` (slot := `none`),
+`chunk->used--`.  `expand_arena(arena)`: empty chunk list ↦ `Chunk.fresh INIT_READER_COUNT` (`mmap`, `memset 0`,
+`capacity = 8`, `cds_list_add_tail` = append): `Grew.first`; else, when `mremap` fails (`MAP_FAILED`), a new chunk of capacity
+`2 * last->capacity` appended: `Growth.newChunk`.  (The in-place branch `Growth.inPlace` computes
+`(char *) last_chunk + old_chunk_size_bytes`: pointer arithmetic, not in the IR subset – every run that takes it is `.error`.) -/
+
+theorem bp_cleanup_thread (fuel : Nat) (env : Env) (C R : Loc) (u : Int) (v : Val) (rest : List Val)
+    (hc : env.vars "chunk" = some (.ptr C)) (hr : env.vars "rcu_reader_reg" = some (.ptr R))
+    (hu : env.priv (.field C "used") = some (.int u)) :
+    ∃ out, exec fuel «bp.cleanup_thread» env (v :: rest) = .ok out ∧
+      out.events = [.ext "cds_list_del" [.ptr (.field R "node")] v] ∧ out.ctl = .normal ∧ out.inp = rest ∧
+      ∀ l, out.env.priv l =
+        if l = .field C "used" then some (.int (u - 1))
+        else if l = .field R "alloc" then some (.int 0)
+        else if l = .field R "tid" then some (.int 0)
+        else if l = .field R "ctr" then some (.int 0) else env.priv l := by
+  sexec [«bp.cleanup_thread», hc, hr, hu]
+
+/-- first expansion: the chunk list is empty (`cds_list_empty` answered non-zero), `mmap` returns the object `N` -/
+theorem bp_expand_arena_first (fuel : Nat) (env : Env) (A N : Loc) (v1 v3 v4 : Val) (rest : List Val)
+    (ha : env.vars "arena" = some (.ptr A)) (h1 : v1.truthy = true) :
+    ∃ out, exec fuel «bp.expand_arena» env (v1 :: .ptr N :: v3 :: v4 :: rest) = .ok out ∧
+      out.events = [.ext "cds_list_empty" [.ptr (.field A "chunk_list")] v1,
+                    .ext "mmap" [.int 0, .int (8 * 256 + 128), .int 3, .int 34, .int (-1), .int 0] (.ptr N),
+                    .ext "memset" [.ptr N, .int 0, .int (8 * 256 + 128)] v3,
+                    .ext "cds_list_add_tail" [.ptr (.field N "node"), .ptr (.field A "chunk_list")] v4] ∧
+      out.ctl = .ret none ∧ out.inp = rest ∧
+      ∀ l, out.env.priv l = if l = .field N "capacity" then some (.int 8) else env.priv l := by
+  cases v1 with
+  | int n =>
+    have hn : n ≠ 0 := by simpa [Val.truthy] using h1
+    sexec [«bp.expand_arena», «bp.chunk_allocation_size», ha, hn]
+  | ptr p =>
+    sexec [«bp.expand_arena», «bp.chunk_allocation_size», ha]
+
+/-- later expansion, `mremap` fails: the last chunk `Lc` (`arena->chunk_list.prev` = `&Lc->node`) has capacity `c`; a new
+chunk `N` of capacity `2 c` is mapped, zeroed and appended -/
+theorem bp_expand_arena_new (fuel : Nat) (env : Env) (A Lc N : Loc) (c : Nat) (v4 v5 : Val) (rest : List Val)
+    (ha : env.vars "arena" = some (.ptr A))
+    (hprev : env.priv (.field (.field A "chunk_list") "prev") = some (.ptr (.field Lc "node")))
+    (hcap : env.priv (.field Lc "capacity") = some (.int (c : Int))) :
+    ∃ out, exec fuel «bp.expand_arena» env (.int 0 :: .int (-1) :: .ptr N :: v4 :: v5 :: rest) = .ok out ∧
+      out.events = [.ext "cds_list_empty" [.ptr (.field A "chunk_list")] (.int 0),
+                    .ext "mremap" [.ptr Lc, .int ((c : Int) * 256 + 128), .int (((2 * c : Nat) : Int) * 256 + 128), .int 0] (.int (-1)),
+                    .ext "mmap" [.int 0, .int (((2 * c : Nat) : Int) * 256 + 128), .int 3, .int 34, .int (-1), .int 0] (.ptr N),
+                    .ext "memset" [.ptr N, .int 0, .int (((2 * c : Nat) : Int) * 256 + 128)] v4,
+                    .ext "cds_list_add_tail" [.ptr (.field N "node"), .ptr (.field A "chunk_list")] v5] ∧
+      out.ctl = .normal ∧ out.inp = rest ∧
+      ∀ l, out.env.priv l = if l = .field N "capacity" then some (.int ((2 * c : Nat) : Int)) else env.priv l := by
+  have h2 : (c <<< 1 : Nat) = 2 * c := by rw [Nat.shiftLeft_eq]; omega
+  sexec [«bp.expand_arena», «bp.chunk_allocation_size», «bp.mremap_wrapper», ha, hprev, hcap, h2]
+
 end UrcuVerif.Src.RegBp
